@@ -21,7 +21,7 @@ from __future__ import annotations
 import ast
 
 from .. import q
-from ..cfg import must_facts, holds
+from ..cfg import must_facts, holds, explore
 from ..mutate import mutate, remove_stmts, replace_expr, replace_stmt, parse_stmt, parse_expr
 from ..model import AnalysisError
 from ..rules import callers_of
@@ -56,7 +56,8 @@ def _self_field_stores(fi):
 def rule_validated(ck):
     ap = ck.func(HS, CTX + "._apply_xheaders")
     cfg = ap.cfg
-    stores = _self_field_stores(ap)
+    flags = bookkeeping_flags(ck)
+    stores = [(n, f) for n, f in _self_field_stores(ap) if f not in flags]
     fields = sorted({f for _, f in stores})
     ck.floor("C32.ip-validated", len([1 for _, f in stores if f == "remote_ip"]), 1, "stores to self.remote_ip")
     ck.floor("C32.proto-validated", len([1 for _, f in stores if f == "protocol"]), 1, "stores to self.protocol")
@@ -100,6 +101,17 @@ def rule_validated(ck):
         else:
             ck.ob("C32.restore", ap, n.ast, f in _restored_fields(ck), "field %s written by _apply_xheaders is restored by _unapply_xheaders" % f)
     return fields
+
+
+def bookkeeping_flags(ck):
+    """Attributes of the context class whose every store, anywhere in the class, is a boolean constant: they
+    carry no request data (e.g. an 'applied' marker) and are exempt from snapshot/restore pairing."""
+    vals = {}
+    for f in ck.repo.methods(HS, CTX):
+        for n, fld in _self_field_stores(f):
+            v = getattr(n.ast, "value", None)
+            vals.setdefault(fld, []).append(isinstance(n.ast, (ast.Assign, ast.AnnAssign)) and isinstance(v, ast.Constant) and isinstance(v.value, bool))
+    return {fld for fld, bs in vals.items() if bs and all(bs)}
 
 
 def _restored_fields(ck):
@@ -148,7 +160,57 @@ def rule_restore(ck, fields):
         d, n = restored[x]
         want = "self." + snaps[x][0] if x in snaps else None
         ck.ob(rid, un, n.ast, want is not None and d == want, "self.%s is restored from its own snapshot (%s)" % (x, want))
-        ck.ob(rid, un, n.ast, ucfg.postdominates(n, ucfg.entry), "the restore of %s happens on every path of _unapply_xheaders" % x)
+        if ucfg.postdominates(n, ucfg.entry):
+            ck.ob(rid, un, n.ast, True, "the restore of %s happens on every path of _unapply_xheaders" % x)
+        else:
+            _conditional_restore(ck, un, n, x, snaps)
+
+
+def _conditional_restore(ck, un, n, x, snaps):
+    """The restore of field x is skipped on some path.  Accepted: skipped only when x still equals its snapshot,
+    or gated by a boolean marker that _apply_xheaders sets on every path on which it writes x."""
+    rid = "C32.restore"
+    ucfg = un.cfg
+    ap = ck.func(HS, CTX + "._apply_xheaders")
+    flags = bookkeeping_flags(ck)
+    guards = []
+    for t in ucfg.stmt_nodes(lambda t: t.kind == "test"):
+        for pol in (True, False):
+            if branch_flag(ucfg, q.unparse(t.ast), pol, []).get(n.id, False):
+                guards.append((t.ast, pol))
+    if not guards:
+        raise AnalysisError("_unapply_xheaders: restore of %s is conditional in a way that is not a dominating guard" % x)
+    for e, pol in guards:
+        d = q.dotted(e)
+        if d and d.startswith("self.") and d.split(".", 1)[1] in flags and pol:
+            flag = d.split(".", 1)[1]
+
+            def transfer(node, val, flag=flag):
+                wrote, marked = val
+                if node.kind == "stmt" and isinstance(node.ast, (ast.Assign, ast.AugAssign, ast.AnnAssign)):
+                    ap_ = q.assigned_paths(node.ast)
+                    if "self." + x in ap_:
+                        wrote = True
+                    if "self." + flag in ap_:
+                        marked = isinstance(node.ast.value, ast.Constant) and node.ast.value.value is True
+                return (wrote, marked)
+
+            seen = explore(ap.cfg, (False, False), transfer, lambda t: False, follow_exc=False)
+            states = seen.get(ap.cfg.exit.id, set())
+            bad = [v for _f, v in states if v[0] and not v[1]]
+            ck.ob(rid, ap, ap.node, bool(states) and not bad, "restore of %s is gated by self.%s: _apply_xheaders must set self.%s = True on every path on which it writes self.%s" % (x, flag, flag, x),
+                  construct="write of %s without marking %s" % (x, flag))
+            continue
+        # `self.x != self._orig_x` (restore only when changed)
+        if isinstance(e, ast.Compare) and len(e.ops) == 1 and isinstance(e.ops[0], (ast.Eq, ast.NotEq, ast.Is, ast.IsNot)):
+            sides = {q.dotted(e.left), q.dotted(e.comparators[0])}
+            changed = pol == isinstance(e.ops[0], (ast.NotEq, ast.IsNot))
+            pairs = {("self." + fld, "self." + snaps[fld][0]) for fld in snaps}
+            hit = [fld for fld in snaps if sides == {"self." + fld, "self." + snaps[fld][0]}]
+            if hit and changed:
+                ck.ob(rid, un, n.ast, hit[0] == x, "restore of %s may be skipped only when %s itself is unchanged (guard compares %s with its snapshot)" % (x, x, hit[0]), construct="restore of %s guarded by change of %s" % (x, hit[0]))
+                continue
+        raise AnalysisError("_unapply_xheaders: guard %s of the restore of %s is not a recognised idiom" % (q.unparse(e), x))
 
 
 def _reaches(cfg, a, b):
@@ -371,6 +433,37 @@ def rule_precedence(ck):
     ck.ob(rid, ini, st2[0] if st2 else ini.node, len(st2) == 1 and q.dotted(st2[0].value) == "trusted_downstream", "the server keeps the configured trusted_downstream")
 
 
+def rule_socket_address(ck):
+    """Without proxy headers remote_ip is the socket peer's address: for both IP families the context starts
+    with address[0]; only other socket kinds get the placeholder."""
+    rid = "C32.socket-address"
+    init = ck.func(HS, CTX + ".__init__")
+    cfg = init.cfg
+    addr = [p_ for p_ in init.params() if p_ == "address"]
+    if not addr:
+        raise AnalysisError("_HTTPRequestContext.__init__ has no address parameter")
+    stores = [(n, f) for n, f in _self_field_stores(init) if f == "remote_ip"]
+    real = [n for n, _ in stores if isinstance(n.ast.value, ast.Subscript) and q.dotted(n.ast.value.value) == "address" and q.is_const(n.ast.value.slice, 0)]
+    fake = [n for n, _ in stores if isinstance(n.ast.value, ast.Constant)]
+    ck.ob(rid, init, init.node, len(real) == 1 and len(real) + len(fake) == len(stores), "remote_ip starts as address[0] (or a constant placeholder for non-IP sockets)", construct="remote_ip initialisers real=%d fake=%d other=%d" % (len(real), len(fake), len(stores) - len(real) - len(fake)))
+    fams = None
+    for t in cfg.stmt_nodes(lambda t: t.kind == "test"):
+        e = t.ast
+        if isinstance(e, ast.Compare) and len(e.ops) == 1 and isinstance(e.ops[0], ast.In) and q.dotted(e.left) == "self.address_family" and isinstance(e.comparators[0], (ast.Tuple, ast.List, ast.Set)):
+            fams = ({q.dotted(x) for x in e.comparators[0].elts}, e)
+    if fams is None:
+        raise AnalysisError("_HTTPRequestContext.__init__: address-family test not found")
+    ck.ob(rid, init, fams[1], {"socket.AF_INET", "socket.AF_INET6"} <= fams[0], "both IPv4 and IPv6 sockets use their peer address")
+    bf = branch_flag(cfg, q.unparse(fams[1]), True, [])
+    nf = branch_flag(cfg, q.unparse(fams[1]), False, [])
+    for n in real:
+        ck.ob(rid, init, n.ast, bf.get(n.id, False), "address[0] is used for IP sockets")
+    for n in fake:
+        ck.ob(rid, init, n.ast, not bf.get(n.id, False), "the placeholder is used only when the socket is not an IP socket (or has no address)")
+    fam_st = q.stores_to(init.node, "self.address_family")
+    ck.ob(rid, init, fam_st[0] if fam_st else init.node, any(q.dotted(s_.value) == "stream.socket.family" for s_ in fam_st), "the family is the accepted socket's family")
+
+
 def run(ck):
     ck.rule("C32.ip-validated", "_apply_xheaders stores into self.remote_ip only the local that netutil.is_valid_ip accepted (true branch dominates, no rebinding since)")
     ck.rule("C32.proto-validated", "_apply_xheaders stores into self.protocol only a local known to be in a literal set within {http, https}")
@@ -378,6 +471,7 @@ def run(ck):
     ck.rule("C32.adapter", "_ProxyAdapter applies the headers before forwarding headers_received, un-applies on every normal path of finish and on_connection_close on the same context; nobody else calls apply/unapply; start_request returns the adapter when xheaders is set")
     ck.rule("C32.request-copy", "HTTPServerRequest copies remote_ip and protocol from the connection context at construction")
     ck.rule("C32.valid-ip", "is_valid_ip: empty and NUL-containing text rejected before a numeric-only getaddrinfo; errors and guards answer False")
+    ck.rule("C32.socket-address", "the context's initial remote_ip is address[0] for AF_INET and AF_INET6 sockets (the value restored after each request and used when no proxy header applies)")
     ck.rule("C32.precedence", "validated candidate = headers.get('X-Real-Ip', XFF candidate); XFF candidate = right-to-left scan of the stripped list stopping at the first entry not in trusted_downstream, default the socket address")
     fields = rule_validated(ck)
     rule_restore(ck, fields)
@@ -385,6 +479,7 @@ def run(ck):
     rule_request_copy(ck)
     rule_valid_ip(ck)
     rule_precedence(ck)
+    rule_socket_address(ck)
 
 
 def _in(rel, qn, edit):
@@ -431,6 +526,24 @@ def _swap_lookup_order(fn):
     return True
 
 
+def _seed_flag(tree, both):
+    cls = [c for c in tree.body if isinstance(c, ast.ClassDef) and c.name == CTX][0]
+    fns = {f.name: f for f in cls.body if isinstance(f, ast.FunctionDef)}
+    fns["__init__"].body.append(parse_stmt("self._xheaders_applied = False"))
+    n = 0
+    for node in ast.walk(fns["_apply_xheaders"]):
+        if isinstance(node, ast.If):
+            for st in list(node.body):
+                if isinstance(st, ast.Assign) and _u(st.targets[0]) in (("self.remote_ip", "self.protocol") if both else ("self.remote_ip",)):
+                    node.body.append(parse_stmt("self._xheaders_applied = True"))
+                    n += 1
+    u = fns["_unapply_xheaders"]
+    doc = [st for st in u.body if isinstance(st, ast.Expr) and isinstance(st.value, ast.Constant)]
+    rest = [st for st in u.body if st not in doc]
+    u.body = doc + [parse_stmt("if not self._xheaders_applied:\n    return"), parse_stmt("self._xheaders_applied = False")] + rest
+    return n > 0
+
+
 MUTANTS = [
     ("remote_ip assigned before it is validated (reset afterwards if invalid)", _in(HS, AP, _assign_before_validation), "C32.ip-validated"),
     ("a different variable is validated", _in(HS, AP, replace_expr(lambda n: isinstance(n, ast.Call) and q.call_attr(n) == "is_valid_ip", lambda n: parse_expr("netutil.is_valid_ip(self.remote_ip)"))), "C32.ip-validated"),
@@ -444,12 +557,16 @@ MUTANTS = [
     ("snapshot refreshed on every request (leaks the previous request's value)", _in(HS, AP, lambda fn: (fn.body.insert(1, parse_stmt("self._orig_remote_ip = self.remote_ip")) or True)), "C32.restore"),
     ("snapshot taken before the protocol is decided", lambda repo: mutate(repo, HS, CTX + ".__init__", lambda fn: (lambda idx: (fn.body.insert(1, fn.body.pop(idx[0])) or True) if idx else False)([i for i, st in enumerate(fn.body) if isinstance(st, ast.Assign) and _u(st.targets[0]) == "self._orig_protocol"])), "C32.restore"),
     ("restore only when the ip changed", _in(HS, CTX + "._unapply_xheaders", replace_stmt(lambda st: isinstance(st, ast.Assign) and _u(st.targets[0]) == "self.protocol", lambda st: [ast.If(test=parse_expr("self.remote_ip != self._orig_remote_ip"), body=[st], orelse=[])])), "C32.restore"),
+    ("seeded C32-adv1: 'applied' marker gates the restore but is set only in the remote_ip branch", _in(HS, None, lambda tree: _seed_flag(tree, both=False)), "C32.restore"),
+    ("restore of the protocol skipped when the *ip* is unchanged", _in(HS, CTX + "._unapply_xheaders", replace_stmt(lambda st: isinstance(st, ast.Assign) and _u(st.targets[0]) == "self.protocol", lambda st: [ast.If(test=parse_expr("self.remote_ip != self._orig_remote_ip"), body=[st], orelse=[])])), "C32.restore"),
     ("no cleanup when the connection closes mid-request", _in(HS, "_ProxyAdapter.on_connection_close", remove_stmts(lambda st: "_cleanup" in _u(st))), "C32.adapter"),
     ("cleanup skipped for bodiless requests", _in(HS, "_ProxyAdapter.finish", replace_stmt(lambda st: "_cleanup" in _u(st), lambda st: [ast.If(test=parse_expr("getattr(self.delegate, '_chunks', True)"), body=[st], orelse=[])])), "C32.adapter"),
     ("headers applied after the request object was built", _in(HS, "_ProxyAdapter.headers_received", lambda fn: (fn.body.__setitem__(slice(0, len(fn.body)), [parse_stmt("result = self.delegate.headers_received(start_line, headers)"), [st for st in fn.body if "_apply_xheaders" in _u(st)][0], parse_stmt("return result")]) or True)), "C32.adapter"),
     ("cleanup un-applies on a different object", _in(HS, "_ProxyAdapter._cleanup", replace_expr(lambda n: _u(n) == "self.connection.context", lambda n: parse_expr("self.delegate.connection.context"))), "C32.adapter"),
     ("adapter built but not returned", _in(HS, "HTTPServer.start_request", replace_stmt(lambda st: isinstance(st, ast.Assign) and "_ProxyAdapter" in _u(st), lambda st: [parse_stmt("proxied = _ProxyAdapter(delegate, request_conn)")])), "C32.adapter"),
     ("request reads the ip from the socket address", _in(HU, "HTTPServerRequest.__init__", replace_expr(lambda n: isinstance(n, ast.Call) and _u(n) == "getattr(context, 'remote_ip', None)", lambda n: parse_expr("getattr(context, '_orig_remote_ip', None)"))), "C32.request-copy"),
+    ("IPv6 connections start with the placeholder address", _in(HS, CTX + ".__init__", replace_expr(lambda n: isinstance(n, ast.Tuple) and _u(n) == "(socket.AF_INET, socket.AF_INET6)", lambda n: parse_expr("(socket.AF_INET,)"))), "C32.socket-address"),
+    ("initial remote_ip is the peer port", _in(HS, CTX + ".__init__", replace_expr(lambda n: isinstance(n, ast.Subscript) and _u(n) == "address[0]", lambda n: parse_expr("address[1]"))), "C32.socket-address"),
     ("host names count as valid IPs (no AI_NUMERICHOST)", _in(NU, "is_valid_ip", replace_expr(lambda n: _u(n) == "socket.AI_NUMERICHOST", lambda n: ast.Constant(value=0))), "C32.valid-ip"),
     ("NUL check dropped", _in(NU, "is_valid_ip", replace_expr(lambda n: isinstance(n, ast.BoolOp) and "\\x00" in _u(n), lambda n: n.values[0])), "C32.valid-ip"),
     ("lookup errors other than NONAME answer True", _in(NU, "is_valid_ip", replace_stmt(lambda st: isinstance(st, ast.Raise) and st.exc is None, lambda st: [parse_stmt("return True")])), "C32.valid-ip"),
